@@ -67,6 +67,13 @@ func scannerCensus() (n int, states []string) {
 	return
 }
 
+func gcd(a, b uint64) uint64 {
+	for b != 0 {
+		a, b = b, a%b
+	}
+	return a
+}
+
 func init() {
 	fw.Register(&fw.Prop{
 		ID:    "C18",
@@ -85,7 +92,15 @@ func init() {
 			return ""
 		},
 		Run: func(ctx *fw.Ctx, i int) fw.Result {
-			in := famAt(families(ctx.Tier), i, ctx.Rng)
+			// each shard parses a contiguous stretch of the list as one long sequence; the list is walked in a fixed
+			// scrambled order, so that every stretch holds inputs of every family (and the few huge ones are spread out)
+			fams := families(ctx.Tier)
+			total := uint64(famCount(fams))
+			stride := uint64(1000003)
+			for total%stride == 0 || gcd(total, stride) != 1 {
+				stride += 2
+			}
+			in := famAt(fams, int(uint64(i)*stride%total), ctx.Rng)
 			entry := in.Entry
 			before := atomic.LoadInt64(&parse.VerifLexLive)
 			started0 := atomic.LoadInt64(&parse.VerifLexStarted)
@@ -95,7 +110,23 @@ func init() {
 				atomic.StoreInt64(&parse.VerifLexSteps, 0)
 				atomic.StoreInt64(&parse.VerifParseSteps, 0)
 				atomic.StoreInt64(&parse.VerifStepLimit, int64(64*(len(in.Text)+64)))
-				soy.NewBundle().AddTemplateString("in.soy", in.Text).Compile()
+				// a bundle of several files with the hostile one first, in the middle or last (and one bundle in eight
+				// defining a template twice): whatever Compile starts for the other files must be gone when it returns
+				bnd := soy.NewBundle()
+				const okA, okB = "{namespace c18a}\n/** */\n{template .t}a{call .u /}{/template}\n/** */\n{template .u}u{/template}\n", "{namespace c18b}\n/** */\n{template .t}b{/template}\n"
+				switch (i / 4) % 8 {
+				case 0, 1:
+					bnd.AddTemplateString("in.soy", in.Text).AddTemplateString("a.soy", okA).AddTemplateString("b.soy", okB)
+				case 2, 3:
+					bnd.AddTemplateString("a.soy", okA).AddTemplateString("in.soy", in.Text).AddTemplateString("b.soy", okB)
+				case 4:
+					bnd.AddTemplateString("a.soy", okA).AddTemplateString("b.soy", okB).AddTemplateString("in.soy", in.Text)
+				case 5:
+					bnd.AddTemplateString("a.soy", okA).AddTemplateString("a2.soy", okA).AddTemplateString("in.soy", in.Text).AddTemplateString("b.soy", okB)
+				default:
+					bnd.AddTemplateString("in.soy", in.Text)
+				}
+				bnd.Compile()
 				atomic.StoreInt64(&parse.VerifStepLimit, 0)
 			} else {
 				callParser(in)
